@@ -29,13 +29,13 @@ def tokens(x, strform="plain"):
         for k, v in enumerate(seq):
             out += ([","] if k else []) + ["#%d" % v]
         return out + [")"]
-    if t == "pnode":
-        body = ["PNODE", "(", str(i), ","] + ref(a) + [","] + ref(b) + [")"]
-    elif t == "pholder":
+    if t in ("pnode", "psub"):
+        body = [t.upper(), "(", str(i), ","] + ref(a) + [","] + ref(b) + [")"]
+    elif t in ("pholder", "pspecial"):
         sv = STR[strform]
         if "%d" in sv:
             sv = sv % (a[0] if a else 1)
-        body = ["PHOLDER", "("] + lst(a) + [","] + ref(b) + [",", sv, ")"]
+        body = [t.upper(), "("] + lst(a) + [","] + ref(b) + [",", sv] + ([",", "'extra of %d'" % i] if t == "pspecial" else []) + [")"]
     elif t == "cx":
         body = ["(", "PBASE", "(", str(i), ")", "PPA", "("] + ref(a) + [")", "PPB", "("] + ref(b) + [")", ")"]
     elif t in ("inode", "isubnode", "isubsub", "idl", "idr", "idia", "ione", "itwo"):
